@@ -1,21 +1,23 @@
 #!/bin/bash
-# Regression over all seeds and all behaviour-preserving refactorings on a SCRATCH copy of /repo (so it can run while /repo is
+# Regression over all seeds and all behaviour-preserving refactorings on a SCRATCH copy of /repo (so it can run while /repo and /verif are
 # in use): own copy, own build dir, own evidence dir.  usage: tools/regress.sh seeds|harmless [regex]
 set -u
 what=$1; only="${2:-}"
-R=/tmp/regress-repo-$$; B=/tmp/regress-build-$$; E=/tmp/regress-ev-$$
-rm -rf $R $B $E; mkdir -p $B $E
+R=/tmp/regress-repo-$$; B=/tmp/regress-build-$$; E=/tmp/regress-ev-$$; V=/tmp/regress-verif-$$
+rm -rf $R $B $E $V; mkdir -p $B $E
 rsync -a --exclude target --exclude .git /repo/ $R/
+# a snapshot of the machinery too, so /verif can be edited while this runs
+rsync -a --exclude build --exclude evidence --exclude .git --exclude 'replay/target' /verif/ $V/
 ( cd $R && git init -q . && git add -A >/dev/null 2>&1 && git -c user.email=x@x -c user.name=x commit -qm base >/dev/null 2>&1 )
 export VERIF_REPO=$R VERIF_BUILD=$B VERIF_EVIDENCE_DIR=$E
-cd /verif
+cd $V
 declare -A props=( [r1]="C18 C14 C03" [r2]="C01 C11 C16 C03" [r3]="C01 C11 C16 C03" [r4]="C19 C06 C20 C03" [r5]="C18 C14 C03" [r6]="C18 C19 C03" [r7]="C01 C16 C11 C03" [r8]="C09 C08 C07 C05" )
 if [ "$what" = seeds ]; then
   for d in seeded/*/; do
     [ -f $d/meta.json ] || continue
     b=$(basename $d); if [ -n "$only" ] && [[ ! "$b" =~ $only ]]; then continue; fi
     pid=$(python3 -c "import json;print(json.load(open('$d/meta.json'))['property'])")
-    ( cd $R && git checkout -q -- . && git apply $OLDPWD/$d/patch.diff ) || { echo "$b $pid PATCH-DOES-NOT-APPLY"; continue; }
+    ( cd $R && git checkout -q -- . && git apply $V/$d/patch.diff ) || { echo "$b $pid PATCH-DOES-NOT-APPLY"; continue; }
     out=$(./vx check $pid 2>&1); rc=$?
     first=$(echo "$out" | grep -E "VIOLATION|UNDECIDED" | head -1 | cut -c1-200)
     echo "$b $pid rc=$rc  $first"
@@ -24,7 +26,7 @@ else
   for f in seeded/harmless/*.diff; do
     b=$(basename $f .diff); a=${b%%_*}
     if [ -n "$only" ] && [[ ! "$b" =~ $only ]]; then continue; fi
-    ( cd $R && git checkout -q -- . && git apply --check /verif/$f 2>/dev/null && git apply /verif/$f ) || { echo "$b: PATCH-DOES-NOT-APPLY"; continue; }
+    ( cd $R && git checkout -q -- . && git apply --check $V/$f 2>/dev/null && git apply $V/$f ) || { echo "$b: PATCH-DOES-NOT-APPLY"; continue; }
     res=""
     for p in ${props[$a]}; do
       out=$(./vx check $p 2>&1); rc=$?
@@ -34,4 +36,4 @@ else
     echo "$b:$res"
   done
 fi
-rm -rf $R $B $E
+rm -rf $R $B $E $V
